@@ -680,6 +680,9 @@ def run(ctx):
     ctx.extra["differential_ops"] = len(lines)
 
     # ---- T: differential correspondence; S: oracle on the implementation's own outputs
+    if os.environ.get("C31_DUMP_LINES"):
+        with open(os.environ["C31_DUMP_LINES"], "w") as f:
+            f.write("".join(l + "\n" for l in lines))
     run1 = Run()
     t0 = time.time()
     if drv:
